@@ -159,19 +159,26 @@ def bfs(spec, conf, alphabet, depth, seeds=(), seen=None, keep_states=False, wor
     ctx = mp.get_context('fork')
     with ctx.Pool(workers) as pool:
         # level 0: the empty graph and the seed prefixes (state oracle runs on them too)
-        level0 = []
+        # `seen` (possibly shared between runs) only decides whether the state oracle still has to
+        # run on a state; `local` decides expansion, so that a state already met in another universe
+        # is still expanded with *this* run's alphabet.
+        local = set()
+        frontier = []
+        new_states = []
         for h in [()] + [tuple(s) for s in seeds]:
             G, M, outs = execute(conf, h)
             if any(o[0] not in LEGIT for o in outs):
                 R.dead += 1
+                R.dead_seeds = getattr(R, 'dead_seeds', []) + [repr(h), repr(outs)]
                 continue
             k = state_key(conf, G, M)
-            if k in seen:
+            if k in local:
                 continue
-            seen.add(k)
-            level0.append(h)
-        frontier = list(level0)
-        new_states = list(level0)
+            local.add(k)
+            frontier.append(h)
+            if k not in seen:
+                seen.add(k)
+                new_states.append(h)
         d = 0
         while True:
             # phase B on the new states of this level
@@ -202,12 +209,14 @@ def bfs(spec, conf, alphabet, depth, seeds=(), seen=None, keep_states=False, wor
                     if dead:
                         R.dead += 1
                         continue
-                    if key in seen:
+                    if key in local:
                         continue
+                    local.add(key)
+                    fresh = key not in seen
                     seen.add(key)
-                    nxt.append((h2, expand))
-            new_states = [h for h, _ in nxt]
-            frontier = [h for h, ex in nxt if ex]
+                    nxt.append((h2, expand, fresh))
+            new_states = [h for h, _, fresh in nxt if fresh]
+            frontier = [h for h, ex, _ in nxt if ex]
             d += 1
     _CTX = None
     return R
